@@ -79,6 +79,7 @@ TEXTS = {
     # ghost.ucg is never on disk: it exists only while an editor has it open
     "ghost-text": "let x = 1;\n",
     "uses-ghost": 'let g = import "./ghost.ucg";\nlet y = g.x + "s";\n',
+    "adds-string-to-lib-v": 'let l = import "./lib.ucg";\nlet r = l.v + "s";\n',
 }
 for _n, _t in list(DISK.items()):
     if _n not in ("a.ucg", "lib.ucg", "big.ucg", "k_test.ucg"):
@@ -109,11 +110,14 @@ def norm_diags(ds):
 _FRESH = {}
 
 
-def fresh_diagnostics(doc, text):
-    """what a fresh server publishes after a single didOpen(doc, text) over the on-disk workspace"""
-    key = (doc, text)
+def fresh_diagnostics(doc, text, removed=()):
+    """what a fresh server publishes after a single didOpen(doc, text) over the on-disk workspace (less the files a trace
+    has deleted)"""
+    key = (doc, text, tuple(sorted(removed)))
     if key not in _FRESH:
         d = make_ws()
+        for n in removed:
+            os.unlink(os.path.join(d, n))
         try:
             c = lsp.Client(d)
             try:
@@ -173,7 +177,13 @@ def run_trace(trace, with_requests=True):
     try:
         c = lsp.Client(d)
         try:
+            removed = set()
             for step in trace:
+                if step[0] == "unlink":
+                    # the file is deleted on disk (by something else than the editor); no message is sent
+                    os.unlink(os.path.join(d, step[1]))
+                    removed.add(step[1])
+                    continue
                 if step[0] == "close":
                     c.close_doc(step[1])
                     model.pop(step[1], None)
@@ -188,7 +198,7 @@ def run_trace(trace, with_requests=True):
             last = c.last_diagnostics()
             for doc, tname in model.items():
                 got = norm_diags(last.get(c.uri(doc)))
-                want = fresh_diagnostics(doc, TEXTS[tname])
+                want = fresh_diagnostics(doc, TEXTS[tname], removed)
                 if got != want:
                     viol.append(("diagnostics-differ-from-fresh-server", {"doc": doc, "text": tname, "published": got, "fresh": want}))
             if not c.alive():
@@ -207,6 +217,8 @@ def unsaved_other(trace, bad_doc):
     model = {}
     res = False
     for st in trace:
+        if st[0] == "unlink":
+            continue
         if st[0] == "close":
             model.pop(st[1], None)
         else:
@@ -237,8 +249,8 @@ def abstract_trace(trace, detail):
     parts = []
     for st in trace:
         who = "self" if st[1] == bad_doc else "other"
-        if st[0] == "close":
-            parts.append("close(%s)" % who)
+        if st[0] in ("close", "unlink"):
+            parts.append("%s(%s)" % (st[0], who))
         else:
             same_as_disk = TEXTS[st[2]] == DISK.get(st[1])
             parts.append("%s(%s,%s)" % (st[0], who, "disk-text" if same_as_disk else st[2]))
@@ -584,6 +596,13 @@ def run(ctx):
         traces.append(first + [("open", "a.ucg", "uses-ghost")])
         traces.append(first + [("open", "a.ucg", "uses-ghost"), ("change", "a.ucg", "uses-ghost")])
         traces.append([("open", "a.ucg", "uses-ghost")] + first + [("change", "a.ucg", "uses-ghost")])
+    # the file of an open document is deleted on disk; once the document is closed nothing of it may be left either
+    for ta in ("adds-string-to-lib-v", "valid-import"):
+        for tl in ("lib-v", "lib-no-v"):
+            traces.append([("open", "lib.ucg", tl), ("unlink", "lib.ucg"), ("close", "lib.ucg"), ("open", "a.ucg", ta)])
+            traces.append([("open", "a.ucg", ta), ("open", "lib.ucg", tl), ("unlink", "lib.ucg"), ("close", "lib.ucg"), ("change", "a.ucg", ta)])
+        # (a file deleted while no document of it is open and no message tells the server is not judged: the property's
+        # sessions are made of the editor's messages, and nothing in them lets the server know)
     for a, b, c in TRIANGLES:
         for first in (b, c):
             for kind in ("open", "change"):
@@ -619,6 +638,8 @@ def run(ctx):
     for t in traces:
         model = {}
         for st in t:
+            if st[0] == "unlink":
+                continue
             if st[0] == "close":
                 model.pop(st[1], None)
             else:
@@ -626,7 +647,7 @@ def run(ctx):
             states.add(json.dumps(sorted(model.items())))
     # (the files of the sub-directory triangles are there for the traces; as texts for the request sweeps they are the
     # import-field-chain text over again)
-    for part in core.pmap(work_requests, [t for t in TEXTS if not (t.startswith("disk:") and "/" in t) and t not in ("ghost-text", "uses-ghost")], chunk=1):
+    for part in core.pmap(work_requests, [t for t in TEXTS if not (t.startswith("disk:") and "/" in t) and t not in ("ghost-text", "uses-ghost", "adds-string-to-lib-v")], chunk=1):
         ctx.count(part["evals"], part["evals"])
         for k, v in part["hist"].items():
             ctx.outcome(k, v)
